@@ -111,7 +111,12 @@ def c09(sc, tier, seed):
                             'TLC enumerates the tree of ALL programs of length 4 (so every shorter program as a prefix) of one connection over {MULTI, EXEC, DISCARD, WATCH, UNWATCH, 2 good commands, 2 commands failing at run time, unknown command, bad arity, a read} interleaved at every position with at most one command of a second connection (write / read / pop) - 41472 programs - checks QueuedInvisible, ResetAfterExec, ExecAllOrNothing, SessionIsolation and WatchIff on the ideal reading, and each program is replayed deterministically on two real connections: every reply, the full database state after every step, and at the end each connection\'s MULTI state / selected db / protocol / name are compared.')
 
 
-CHECKS = {'C02': c02, 'C09': c09, 'C07': c07, 'C06': c06, 'C03': c03, 'C04': c04, 'C05': c05}
+def c10(sc, tier, seed):
+    return transition_check(sc, tier, seed, 'C10', ['MC_watch'], quick_n=10000,
+                            rule='TLC enumerates every program [step] WATCH a [step] MULTI PING [step by the other connection] EXEC with exactly one free position filled by: every data command of the emulator aimed at the watched key (all types; in-place and replacing writes, reads, failing writes), issued by the watching or by the other connection, FLUSHDB/FLUSHALL, or the deadline passing (300 ms of real time) - from 17 initial states (watched key missing / string / list / hash / set / with TTL); WatchIff (EXEC replies nil iff the watched key was modified since WATCH) is checked by TLC on the ideal reading; every program is replayed on two real connections.')
+
+
+CHECKS = {'C02': c02, 'C10': c10, 'C09': c09, 'C07': c07, 'C06': c06, 'C03': c03, 'C04': c04, 'C05': c05}
 
 
 def replay_path(path):
